@@ -926,6 +926,14 @@ func (g *gen) data() string {
 	return fmt.Sprintf("data %d %s %s %s", g.face(), g.name(), fresh, tok)
 }
 
+// FIB costs: mostly small, sometimes at the boundaries of the 64-bit unsigned range
+func (g *gen) cost() string {
+	if g.r.Intn(5) == 0 {
+		return g.pick([]string{"0", "1", "4294967296", "9223372036854775807", "9223372036854775808", "9223372036854775828", "18446744073709551615", "10"})
+	}
+	return strconv.Itoa(g.r.Intn(4))
+}
+
 func (g *gen) setup() []string {
 	ops := []string{}
 	nf := 2 + g.r.Intn(5)
@@ -956,7 +964,7 @@ func (g *gen) setup() []string {
 		ops = append(ops, fmt.Sprintf("fib ins / %d %d", g.faces[1], g.r.Intn(3)))
 	}
 	for i := 0; i < 2+g.r.Intn(5); i++ {
-		ops = append(ops, fmt.Sprintf("fib ins %s %d %d", g.pick(g.names), g.face(), g.r.Intn(4)))
+		ops = append(ops, fmt.Sprintf("fib ins %s %d %s", g.pick(g.names), g.face(), g.cost()))
 	}
 	if g.r.Intn(2) == 0 {
 		ops = append(ops, fmt.Sprintf("fib ins /8.0 %d %d", g.face(), g.r.Intn(3)))
@@ -964,7 +972,7 @@ func (g *gen) setup() []string {
 	// routes for the cluster of hot names, often several next hops with equal or different costs
 	if g.r.Intn(5) != 0 {
 		for i := 0; i <= g.r.Intn(3); i++ {
-			ops = append(ops, fmt.Sprintf("fib ins %s %d %d", g.base, g.faces[g.r.Intn(len(g.faces))], g.r.Intn(3)))
+			ops = append(ops, fmt.Sprintf("fib ins %s %d %s", g.base, g.faces[g.r.Intn(len(g.faces))], g.cost()))
 		}
 	}
 	for i := 0; i < g.r.Intn(3); i++ {
@@ -1052,7 +1060,58 @@ func (g *gen) script() []string {
 				fmt.Sprintf("frames %d /8.10/8.4/8.1 /8.0/8.4/8.1 %s %s", loc[g.r.Intn(len(loc))], a, b)}
 		}
 	}
-	switch g.r.Intn(6) {
+	switch g.r.Intn(9) {
+	case 8:
+		// best-route among next hops whose costs sit at the boundaries of the unsigned 64-bit range
+		cs := []string{"10", "9223372036854775828", "0", "18446744073709551615", "9223372036854775807", "9223372036854775808", "1", "4294967296"}
+		g.r.Shuffle(len(cs), func(i, j int) { cs[i], cs[j] = cs[j], cs[i] })
+		ops := []string{fmt.Sprintf("strat set %s 0", n), fmt.Sprintf("fib clr %s", n)}
+		k := 0
+		for _, f := range g.faces {
+			if f != f1 && k < 3 {
+				ops = append(ops, fmt.Sprintf("fib ins %s %d %s", n, f, cs[k]))
+				k++
+			}
+		}
+		return append(ops, fmt.Sprintf("int %d %s 0 0 %s - - - - -", f1, n, a))
+	case 7:
+		// the strategy is chosen by the Interest name, the next hops by the forwarding hint (outside the producer region): different
+		// strategy choices on the two prefixes, two next hops on the hint's FIB entry
+		hint := g.pick([]string{"/8.7", "/8.7/8.1"})
+		sn := g.r.Intn(2)
+		ops := []string{fmt.Sprintf("strat set %s %d", n, sn), fmt.Sprintf("strat set /8.7 %d", 1-sn), "fib clr /8.7", "fib clr /8.7/8.1"}
+		k := 0
+		for _, f := range g.faces {
+			if f != f1 && k < 2 {
+				ops = append(ops, fmt.Sprintf("fib ins /8.7 %d %d", f, k+1))
+				k++
+			}
+		}
+		return append(ops, fmt.Sprintf("int %d %s 0 0 %s - - %s - -", f1, n, a, hint))
+	case 6:
+		// a face is removed from the face table while its packet is still queued: /localhost Data from it must not satisfy the pending
+		// /localhost Interest of a local consumer, its /localhost Interest must not be forwarded
+		var loc []uint64
+		for _, f := range g.faces {
+			if g.local[f] {
+				loc = append(loc, f)
+			}
+		}
+		if len(loc) < 2 {
+			return nil
+		}
+		gone := g.faces[g.r.Intn(len(g.faces))]
+		lh := g.pick([]string{"/8.0/8.4/8.1", "/8.0/8.1", "/8.0/8.1/8.2"})
+		cons, prod := loc[0], loc[1]
+		if gone == cons {
+			cons, prod = prod, cons
+		}
+		return []string{"cs 1 1", fmt.Sprintf("fib ins /8.0 %d 0", prod),
+			fmt.Sprintf("int %d %s 0 0 %s 10000 - - - -", cons, lh, a),
+			fmt.Sprintf("face del %d", gone),
+			fmt.Sprintf("data %d %s 100000 -", gone, lh),
+			fmt.Sprintf("int %d %s 0 0 %s 10000 - - - -", gone, lh, b),
+			fmt.Sprintf("int %d %s 0 0 %s 10000 - - - -", cons, lh, c)}
 	case 5:
 		// forwarded, satisfied by Data that is stale at once, revived before the PIT sweep by a MustBeFresh Interest the cache cannot
 		// answer (forwarded, short lifetime), expires unsatisfied at a PIT update; then the same name and nonce loop back on another face
@@ -1076,12 +1135,20 @@ func (g *gen) script() []string {
 		}
 		up := g.faces[g.r.Intn(len(g.faces))]
 		f3 := g.faces[g.r.Intn(len(g.faces))]
-		return []string{"cs 1 1", fmt.Sprintf("strat set %s %d", n, g.r.Intn(2)), fmt.Sprintf("fib ins %s %d 0", n, up),
+		base4 := []string{"cs 1 1", fmt.Sprintf("strat set %s %d", n, g.r.Intn(2)), fmt.Sprintf("fib ins %s %d 0", n, up),
 			fmt.Sprintf("int %d %s 0 0 %s 10000 - - %s -", f1, ch, a, g.pick([]string{"-", "01070707"})),
 			fmt.Sprintf("int %d %s 1 0 %s 10000 - - - -", f2, n, b),
 			fmt.Sprintf("data %d %s 100000 @", up, ch),
-			fmt.Sprintf("int %d %s 0 0 %s 10000 - - %s -", f3, ch, c, g.pick([]string{"-", "0102030405060708"})),
-			fmt.Sprintf("data %d %s 100000 -", up, ch)}
+			fmt.Sprintf("int %d %s 0 0 %s 10000 - - %s -", f3, ch, c, g.pick([]string{"-", "0102030405060708"}))}
+		// sometimes a PIT update runs before the Data for the first consumer arrives (its Interest is still inside its lifetime)
+		if g.r.Intn(2) == 0 {
+			ops4 := []string{"sleep 150000000"}
+			for k := 0; k < g.wd.nthr; k++ {
+				ops4 = append(ops4, fmt.Sprintf("tick %d", k))
+			}
+			return append(append(base4, ops4...), fmt.Sprintf("data %d %s 100000 -", up, ch))
+		}
+		return append(base4, fmt.Sprintf("data %d %s 100000 -", up, ch))
 	case 3:
 		// /localhost Data cached from an exchange between local applications; then a NON-local consumer asks with CanBePrefix for
 		// a (possibly empty) prefix of it: the empty name, and names that are not under /localhost
@@ -1169,7 +1236,7 @@ func (g *gen) next() string {
 		return fmt.Sprintf("sweep %d", g.r.Intn(g.wd.nthr))
 	case x < 95:
 		if g.r.Intn(2) == 0 {
-			return fmt.Sprintf("fib ins %s %d %d", g.pick(g.names), g.face(), g.r.Intn(4))
+			return fmt.Sprintf("fib ins %s %d %s", g.pick(g.names), g.face(), g.cost())
 		}
 		return fmt.Sprintf("fib rem %s %d", g.pick(g.names), g.face())
 	case x < 96:
